@@ -232,6 +232,29 @@ theorem chem_dead_forever [HasSqrt α] [HasFloor α] [HasRound α] (c : Chemical
     (steps.foldl (fun q d => Chemicals.update c e d q) p).alive = false :=
   dead_forever (fun q => q.alive) _ (fun q d hq => chem_alive_monotone c e d q hq) p steps h
 
+section vpsHist
+open Ladim.Bio
+variable [HasSqrt α] [HasExp α] [HasLog α] [HasSin α] [HasCos α] [HasAsin α] [HasRpow α] [HasPi α]
+
+/-- instance: vps fish — a dead fish (too old, or stopped where the velocity field vanishes) stays dead over every
+history of further updates, whatever fields and time steps follow -/
+theorem vps_dead_forever (steps : List (α × α × α × α × α)) (p : Vps α) (h : p.alive = false) :
+    (steps.foldl (fun q s => vpsUpdate s.1 s.2.1 s.2.2.1 s.2.2.2.1 s.2.2.2.2 q) p).alive = false :=
+  dead_forever (fun q => q.alive) _
+    (fun q s hq => ((vps_alive_iff s.1 s.2.1 s.2.2.1 s.2.2.2.1 s.2.2.2.2 q).mp hq).1) p steps h
+
+/-- age over a history = initial age + the sum of the time steps (alive or not) -/
+theorem vps_age_history (steps : List (α × α × α × α × α)) (p : Vps α) :
+    (steps.foldl (fun q s => vpsUpdate s.1 s.2.1 s.2.2.1 s.2.2.2.1 s.2.2.2.2 q) p).age =
+      p.age + (steps.map (fun s => s.2.1)).sum := by
+  induction steps generalizing p with
+  | nil => simp
+  | cons s ss ih =>
+    simp only [List.foldl, List.map_cons, List.sum_cons]
+    rw [ih, vps_age_advance]; ring
+
+end vpsHist
+
 /-- non-vacuity: the `ExpLaws` bundle is inhabited by the reals -/
 example : ExpLaws ℝ := RealInst.expLaws
 
